@@ -24,6 +24,11 @@ class SimAbort(BaseException):
     """Raised inside sim threads to unwind them once the run has been aborted."""
 
 
+class SelfDeadlock(BaseException):
+    """A thread waits without limit for a non-reentrant lock it holds itself (raised only when the scheduler was
+    asked to report this instead of letting the run end as a deadlock)."""
+
+
 class SimThread:
     def __init__(self, sched, target, args=(), kwargs=None, name=None):
         self.sched = sched
@@ -80,11 +85,12 @@ class SimThread:
 
 
 class Sched:
-    def __init__(self, choices=(), horizon=4000.0, max_steps=3_000_000, preempt=None, trace=False, repo="/repo", preempt_at=None):
+    def __init__(self, choices=(), horizon=4000.0, max_steps=3_000_000, preempt=None, trace=False, repo="/repo", preempt_at=None, fallback=0):
         self.now = 0.0
         self.threads = []
         self.current = None
         self.choices = list(choices)
+        self.fallback = fallback  # the decision once `choices` is used up: 0 = the running thread goes on, 1 = always hand over to the next one
         self.ci = 0
         self.events = []
         self.seq = 0
@@ -183,7 +189,7 @@ class Sched:
             return runnable[0]
         runnable.sort(key=lambda t: (t is not me, t.id))
         self.decisions += 1
-        c = 0
+        c = self.fallback
         if self.ci < len(self.choices):
             c = self.choices[self.ci]
             self.ci += 1
@@ -197,6 +203,16 @@ class Sched:
                 if t.state == "blocked" and t.pred is not None and t.pred():
                     t.state, t.wake_ok = "runnable", True
             runnable = [t for t in self.threads if t.state == "runnable"]
+            held = [t for t in runnable if getattr(t, "hold", 0)]
+            if held:
+                free = [t for t in runnable if not getattr(t, "hold", 0)]
+                if free:
+                    for t in held:
+                        t.hold -= 1
+                    runnable = free
+                else:
+                    for t in held:
+                        t.hold = 0
             if runnable:
                 if forced is not None and len(runnable) > 1:
                     runnable.sort(key=lambda t: (t is not me, t.id))
@@ -268,7 +284,7 @@ class Sched:
             self._abort("livelock", f"more than {self.max_zero_time_ops} blocking-primitive calls without progress of virtual time (t={self.now:.3f})")
             raise SimAbort()
 
-    def yield_point(self, why="", forced=None):
+    def yield_point(self, why="", forced=None, hold=0):
         me = self.current
         if self.aborting:
             raise SimAbort()
@@ -276,6 +292,8 @@ class Sched:
         if me is None or _real_threading.current_thread() is not me.real:
             return
         me.state = "runnable"
+        if hold:
+            me.hold = hold  # delayed: passed over for the next `hold` scheduling decisions (as long as anything else can run)
         self._switch_away(me, forced=forced)
 
     # -- line-level tracing --------------------------------------------------
@@ -299,14 +317,16 @@ class Sched:
                 key = self._fkey.get(co)
                 if key is None:
                     key = self._fkey[co] = f"{os.path.basename(co.co_filename)}:{co.co_name}"
+                n = self._fcount[key] = self._fcount.get(key, 0) + 1
                 d = self.preempt_at.get(key)
-                if d is not None:
-                    n = self._fcount[key] = self._fcount.get(key, 0) + 1
-                    if p is None:
-                        p = d.get(n)
+                if d is not None and p is None:
+                    p = d.get(n)
             if p is not None and not self.aborting:
                 self.preempted_in.append(f"{os.path.basename(frame.f_code.co_filename)}:{frame.f_code.co_name}:{frame.f_lineno}")
-                self.yield_point("preempt", forced=p)
+                if isinstance(p, (list, tuple)):  # [choice, hold]
+                    self.yield_point("preempt", forced=p[0], hold=p[1])
+                else:
+                    self.yield_point("preempt", forced=p)
         return self._trace_local
 
 
@@ -356,6 +376,8 @@ class SimLock:
         s = self._s
         s.yield_point("lock.acquire")
         first = True
+        if self.owner is s.current and self.owner is not None and blocking and (timeout is None or timeout < 0) and getattr(s, "report_self_deadlock", False):
+            raise SelfDeadlock(f"thread {s.current.name} waits for lock {self.name}, which it holds")
         while self.owner is not None:
             if not blocking:
                 return False
@@ -707,6 +729,9 @@ class SimSocket:
     def send(self, data):
         s = self._s
         s.yield_point("send")
+        hook = getattr(self, "on_send", None)
+        if hook is not None:
+            hook(self, data)  # runs on the calling thread, before the write (what a signal handler of the application would do)
         if self.closed:
             raise OSError(errno.EBADF, "Bad file descriptor")
         if self.rst:
